@@ -78,6 +78,15 @@ theorem used_cache_needs_key_determined_values :
     readsOf 1 (fun _ => 0) [(0, .fillUse 11 1000), (1, .fillUse 11 1001)] ≠ solo (fun _ => 0) [.fillUse 11 1001] := by
   decide
 
+/-- Schedule independence WITHOUT the hypothesis that lazily initialised cells are initialised: when every racer
+    installs the value the cell's key determines and the cell is only accessed through the nil-guarded
+    initialisation (`k'` lists it as a read-back cache), every thread still observes what it observes alone — the
+    uninitialised cell is a data race (`uninitialised_lazy_cell_races`) but changes no verdict. -/
+theorem schedule_independent_uninitialised (k' : Cfg) (i : Nat) (tr : Trace) (σ τ : State)
+    (hc : CleanTrace k' (mapTrace tr)) (hlz : k'.lazy = []) (hag : AgreeOff k' σ τ)
+    (hcs : Coherent k' σ) (hct : Coherent k' τ) : readsOf i σ tr = solo τ (proj i tr) := by
+  rw [← readsOf_map i tr σ, schedule_independent k' i (mapTrace tr) σ τ hc (fun c h => by simp [hlz] at h) hag hcs hct, proj_map, solo_map]
+
 /-- Validation does not write into the document: after any clean trace every non-cache cell holds what it
     held before. -/
 theorem document_untouched (k : Cfg) (σ : State) (tr : Trace) (hc : CleanTrace k tr) (hl : LazyInit k σ) :
@@ -162,6 +171,22 @@ theorem append_spare_schedule_dependent (arr : Nat → Cell) (h : Hdr) (v1 v2 : 
 /-- The decoder's growth rule leaves room exactly after 3, 5-7, 9-15 elements (all lists up to 16 elements). -/
 theorem decoded_spare_capacity_small :
     (List.range 17).filter spareCap = [3, 5, 6, 7, 9, 10, 11, 12, 13, 14, 15] := by decide
+
+/-- … so it has spare capacity exactly when n is not a power of two -/
+theorem decoded_spare_iff_not_power_of_two (n : Nat) (hn : 0 < n) : spareCap n = true ↔ ∀ k, n ≠ 2 ^ k := by
+  obtain ⟨k, hk, h1, h2⟩ := decodedCap_pow2 n hn
+  simp only [spareCap, decide_eq_true_eq, hk]
+  constructor
+  · intro hlt j hj
+    -- n = 2^j, n < 2^k < 2n = 2^(j+1): no power of two strictly between
+    subst hj
+    have a : j < k := (Nat.pow_lt_pow_iff_right (by decide)).mp hlt
+    have b : k < j + 1 := by
+      have : 2 ^ k < 2 ^ (j + 1) := by rw [Nat.pow_succ]; omega
+      exact (Nat.pow_lt_pow_iff_right (by decide)).mp this
+    omega
+  · intro hne
+    exact Nat.lt_of_le_of_ne h1 (hne k)
 
 /-- A decoded slice is never shorter than its content (all n). -/
 theorem decoded_cap_ge (n : Nat) : n ≤ decodedCap n := decodedCap_ge n
@@ -359,6 +384,18 @@ theorem outcome_clean (c : CaseM) : outcome c = specOutcome := by
       exact absurd h1 (Nat.not_le.mpr hlt)
     simp [document_untouched (caseCfg c) sigma0 (caseTrace c) hc hl d hn]
   simp [outcome, outcomeOf, specOutcome, hr, hd, hdoc]
+
+/-- The seeded change C15-m2 for EVERY case: from a state in which the uniqueness checker is nil, no thread of any
+    case, under any interleaving, observes anything it does not observe alone … -/
+theorem uninitialised_checker_changes_no_verdict (c : CaseM) (i : Nat) :
+    readsOf i sigmaU (caseTrace c) = solo sigmaU (proj i (caseTrace c)) :=
+  schedule_independent_uninitialised (caseCfgU c) i (caseTrace c) sigmaU sigmaU (caseTrace_cleanU c)
+    rfl (agree_refl _ _) (sigmaU_coherent c) (sigmaU_coherent c)
+
+/-- … although two first array validations race (only the detector sees the defect). -/
+theorem uninitialised_checker_races :
+    RaceIn (events sigmaU (caseTrace { ops := [{ kind := .visit, arrays := true }], g := 2, per := 1, sched := 0 })) := by
+  rw [← raceInB_iff]; decide
 
 /-! Regression theorems: the footprints the two repaired defects had (kept as traces of the machine; the
     corpus replays their inputs on the library on every run). -/
